@@ -217,6 +217,7 @@ func genProtocol(rng *Rng, workdir string, stress bool, proj string, bits int) *
 // ---------------------------------------------------------------------------------------------
 
 type simSpec struct {
+	StartDay    string
 	Dir         string
 	Cfg         string
 	Mode        string // "build+run", "build+run+run", "build+run+build+run"
@@ -363,7 +364,10 @@ func genSimConfig(r *Rng, base string, k int) *simSpec {
 	}
 	fmt.Fprintf(&y, "  triplengths: [%s]\n", strings.Join(tls, ","))
 	opt("botfreqfactor", fmt.Sprintf("  botfreqfactor: %g", 0.99+0.02*r.F01()), "  botfreqfactor: 0")
-	y.WriteString("  startday: \"2021-01-01T00:00:00Z\"\n")
+	// any start day is allowed: ordinary years, leap years, and the turn of a year divisible by 400 or by 100
+	startDay := []string{"2021-01-01", "2021-01-01", "2019-06-15", "2024-02-20", "2023-12-20", "2000-11-20", "2000-12-05", "2099-12-15", "2100-02-20", "1999-12-25"}[r.Intn(10)]
+	sp.StartDay = startDay
+	y.WriteString("  startday: \"" + startDay + "T00:00:00Z\"\n")
 	fmt.Fprintf(&y, "  dailytotalfactor: %g\n", 0.95+0.05*r.F01())
 	opt("dailytotaldelta", fmt.Sprintf("  dailytotaldelta: %g", 0.1*r.F01()), "  dailytotaldelta: 0")
 	sp.ReportDelta = 1
